@@ -49,7 +49,7 @@ pub enum Call {
     LastRest,
     /// `rfold` over the rest, i.e. what `rev()` adaptors drive (ends the history; double-ended iterators only)
     RFoldRest,
-    /// `min_by_key` / `max_by_key` of the rest (first minimum, last maximum; ends the history)
+    /// `min()` / `max()` of the rest (ends the history)
     MinRest,
     MaxRest,
 }
@@ -108,9 +108,30 @@ pub fn gen_case(run_seed: u64, tier: Tier) -> IterCase {
                 ty,
                 tier: Tier::Quick,
             };
-            let n = gen_n(&mut rng);
-            // reuse the tree generator, then cut to the wanted length
-            let (seq, _) = gen_tree_seq(&mut rng, &cfg);
+            let large = rng.chance(1, 10);
+            let n = if large { usize::MAX } else { gen_n(&mut rng) };
+            // reuse the tree generator, then cut to the wanted length; one case in ten is a few thousand symbols
+            // long with one dominant symbol (levels that are mostly ones or mostly zeros across several superblocks)
+            let seq = if large {
+                let k = rng.urange(1, 5);
+                let mut syms: Vec<crate::ds::Sym> = vec![];
+                while syms.len() < k {
+                    let c = crate::ds::Sym(*rng.pick(&[0u128, 1, 2, 3, 4, 7, 15, 16, 63, 64, 127, 128, 129, 200, 254, 255]));
+                    if !syms.contains(&c) {
+                        syms.push(c);
+                    }
+                }
+                let mut counts: Vec<u64> = (0..k).map(|_| rng.range(1, 400)).collect();
+                counts[0] = rng.range(2100, 7000);
+                Seq::Weights {
+                    syms,
+                    counts,
+                    arrange: *rng.pick(&[crate::gen::Arrange::Shuffled, crate::gen::Arrange::SortedRuns, crate::gen::Arrange::RandomRuns, crate::gen::Arrange::Periodic]),
+                    seed: rng.next_u64(),
+                }
+            } else {
+                gen_tree_seq(&mut rng, &cfg).0
+            };
             let mut v = seq.expand();
             v.truncate(n);
             let n = v.len();
@@ -204,10 +225,12 @@ pub fn gen_case(run_seed: u64, tier: Tier) -> IterCase {
         _ => {
             let kind = *rng.pick(&[Flat::QVector, Flat::RSQVector256, Flat::RSQVector512]);
             let n = gen_n(&mut rng);
-            let syms: Vec<u8> = if rng.chance(1, 4) {
-                crate::gen::gen_word_pattern_quads(&mut rng, n)
-            } else {
-                (0..n).map(|_| rng.below(4) as u8).collect()
+            let syms: Vec<u8> = match rng.below(8) {
+                0 | 1 => crate::gen::gen_word_pattern_quads(&mut rng, n),
+                // any byte value: only the two low bits are stored
+                2 => (0..n).map(|_| rng.below(256) as u8).collect(),
+                3 => (0..n).map(|_| if rng.chance(1, 6) { rng.below(256) as u8 } else { rng.below(2) as u8 }).collect(),
+                _ => (0..n).map(|_| rng.below(4) as u8).collect(),
             };
             (
                 Container::Quads { kind, syms },
@@ -320,15 +343,8 @@ pub fn exec(case: &IterCase) -> RunOut {
             let v = seq.expand();
             let t = build_tree(*alias, *ty, Path::FromVec, &v);
             verif::set_orders(Order::Canonical, Order::Canonical);
-            // the subject is the iterator protocol: the elements are what the tree's own get() reports
-            // (get against the sequence is C02/C03's subject)
-            let own: Vec<u128> = (0..t.len())
-                .map(|i| match t.answer(&crate::ds::Q::Get(i)) {
-                    crate::ds::A::U(s) => s.0,
-                    other => panic!("get({i}) gave {other:?}"),
-                })
-                .collect();
-            (t, own)
+            // "iter() and into_iter() yield S[0], S[1], ... in order": the elements are those of the input sequence
+            (t, v)
         }
         Container::Bits { kind, bits } => {
             let b: Vec<bool> = bits.chars().map(|c| c == '1').collect();
@@ -569,7 +585,7 @@ pub fn exec(case: &IterCase) -> RunOut {
                 let e = if is_min { model.iter().copied().min() } else { model.iter().copied().max() };
                 let left = model.len();
                 model.clear();
-                let name = if is_min { "min_by_key" } else { "max_by_key" };
+                let name = if is_min { "min" } else { "max" };
                 match catch(|| if is_min { boxed.min_rest() } else { boxed.max_rest() }) {
                     Ok(g) => {
                         digest.opt_u128(g);
